@@ -647,6 +647,24 @@ func upRunVariant(c *upCase, v upVariant, useLocal bool, salt int, anyStored boo
 			return fail("listing", "listing shows %v, want %v", listed, wantListed)
 		}
 	}
+	// a listing limited to one upload shows the newest upload that HAS records: an upload that failed
+	// takes no place in it
+	{
+		ul := a.db.ListUploads("", nil, 1)
+		var ids []string
+		for ul.Next() {
+			ids = append(ids, ul.Info().UploadID)
+		}
+		lerr := ul.Err()
+		ul.Close()
+		wantTop := earlyID
+		if ok && len(c.Visible) > 0 {
+			wantTop = newID
+		}
+		if lerr != nil || len(ids) != 1 || ids[0] != wantTop {
+			return fail("listing-limit", "listing with limit 1 shows %v (err %v), want [%s]", ids, lerr, wantTop)
+		}
+	}
 	// file store
 	files, err := a.files()
 	if err != nil {
